@@ -141,6 +141,10 @@ func HarnessC18SplitEquivalence() {
 			}
 			last = res
 			piece = ""
+			// the operand stack does not grow with the number of pieces fed: a
+			// finished piece leaves at most its own value (otherwise a long
+			// session ends in a stack overflow that the whole program does not have)
+			verifrt.Assert(parts.v.sp <= 0, p.name+":operand-stack-does-not-grow-with-the-pieces")
 		}
 	}
 	verifrt.Reach("compared")
